@@ -98,7 +98,7 @@ fn expected(aw: &[GAward], deposit: NaiveDate, sym: &str) -> Result<Option<(Naiv
 }
 
 pub fn run(ctx: &mut Ctx) {
-    ctx.ev.rule = "(every third case also as an export with 2–3 deposits of the symbol 1–7 days apart, rows oldest-first, newest-first or shuffled: each deposit must get the entry its own look-back gives) generated awards files (0–5 entries around the deposit date at gaps −3…+20 days, mixed-case symbols, another symbol, vesting / non-vesting / unknown / absent actions, 0–3 details with vest-specific and fallback fields, blank and '--' values, $ and comma spellings) × a Stock Plan Activity row (its own Price column empty, null, or — two times in five — filled with a figure that must be ignored) through the real converter: the emitted BUY's date and price must be those of the entry for that symbol on the deposit date or the closest earlier date ≤ 7 days back (vest value over fallback price, last duplicate wins), an error naming symbol and date otherwise, also without an awards file; compared with the Lean model of get_fmv/parse_awards_json. Month and year ends are hit by deposit dates on the 1st–8th of a month. Non-trivial = a look-back of ≥ 1 day or ≥ 2 candidate entries in the window; distinct by awards text + deposit date.".into();
+    ctx.ev.rule = "(every third case also as an export with 2–3 deposits of the symbol 1–7 days apart, rows oldest-first, newest-first or shuffled: each deposit must get the entry its own look-back gives) generated awards files (0–5 entries around the deposit date at gaps −3…+20 days, mixed-case symbols, another symbol, vesting / non-vesting / unknown / absent actions, 0–3 details with vest-specific and fallback fields, blank and '--' values, $ and comma spellings) × a Stock Plan Activity row (every fourth one booked late, `posted as of deposit`; its own Price column empty, null, or — two times in five — filled with a figure that must be ignored) through the real converter: the emitted BUY's date and price must be those of the entry for that symbol on the deposit date or the closest earlier date ≤ 7 days back (vest value over fallback price, last duplicate wins), an error naming symbol and date otherwise, also without an awards file; compared with the Lean model of get_fmv/parse_awards_json. Month and year ends are hit by deposit dates on the 1st–8th of a month. Non-trivial = a look-back of ≥ 1 day or ≥ 2 candidate entries in the window; distinct by awards text + deposit date.".into();
     let mut r = Rng::new(ctx.seed ^ 0xC19);
     let n = ctx.n(1200, 60_000);
     for i in 0..n {
@@ -111,7 +111,9 @@ pub fn run(ctx: &mut Ctx) {
         // the deposit row's own Price column is empty in Schwab's exports, but now and then it carries a figure
         // (or a null): the acquisition is priced from the awards file or not at all, never from that column
         let row_price = match r.below(5) { 0 => json!("$123.45"), 1 => json!("77"), 2 => serde_json::Value::Null, _ => json!("") };
-        let tj = json!({"BrokerageTransactions": [{"Date": us(deposit), "Action": "Stock Plan Activity", "Symbol": sym, "Description": "RS", "Quantity": "10", "Price": row_price, "Fees & Comm": "", "Amount": ""}]}).to_string();
+        // every fourth deposit is booked late: `posted as of deposit` — the deposit date is the one that counts
+        let date_cell = if i % 4 == 1 { format!("{} as of {}", us(deposit + Duration::days(1 + (i % 9) as i64)), us(deposit)) } else { us(deposit) };
+        let tj = json!({"BrokerageTransactions": [{"Date": date_cell, "Action": "Stock Plan Activity", "Symbol": sym, "Description": "RS", "Quantity": "10", "Price": row_price, "Fees & Comm": "", "Amount": ""}]}).to_string();
         let input = SchwabInput { transactions_json: tj, awards_json: if no_file { None } else { Some(aj.clone()) } };
         let res = std::panic::catch_unwind(|| SchwabConverter::new().convert(&input));
         let case_text = format!("# property C19\n# deposit {} {}\n# awards file{}:\n{}\n", sym, deposit, if no_file { " (not given)" } else { "" }, aj);
